@@ -666,6 +666,7 @@ class Inliner:
         _E(self).visit(fdef)
         if count:
             _coalesce(fdef)
+            _scalar_replace_records(fdef, cls_nodes)
             if _thread_flags(fdef):
                 self.log.append(f"{fq}: boolean result of an inlined predicate threaded into its branches")
         return count
@@ -823,6 +824,63 @@ def _thread_flags(fdef) -> int:
                 break
         if not changed:
             break
+    return done
+
+
+def _scalar_replace_records(fdef, cls_nodes: Dict[str, ast.ClassDef]) -> int:
+    """``w = Rec(a, b, c)`` (Rec a NamedTuple / dataclass of this module, built from plain names by an inlined helper) whose only uses are
+    ``w.field`` reads: read the fields straight from a, b, c and drop the record (scalar replacement of aggregates)."""
+    recs: Dict[str, List[str]] = {}
+    for q, cd in cls_nodes.items():
+        is_nt = any((isinstance(b, ast.Name) and b.id == "NamedTuple") or (isinstance(b, ast.Attribute) and b.attr == "NamedTuple") for b in cd.bases)
+        is_dc = any((isinstance(d, ast.Name) and d.id == "dataclass") or (isinstance(d, ast.Attribute) and d.attr == "dataclass")
+                    or (isinstance(d, ast.Call) and ((isinstance(d.func, ast.Name) and d.func.id == "dataclass") or (isinstance(d.func, ast.Attribute) and d.func.attr == "dataclass")))
+                    for d in cd.decorator_list)
+        if is_nt or is_dc:
+            recs[cd.name] = [st.target.id for st in cd.body if isinstance(st, ast.AnnAssign) and isinstance(st.target, ast.Name)]
+    if not recs:
+        return 0
+    done = 0
+    for block in list(_blocks(fdef)):
+        for st in list(block):
+            if not (isinstance(st, (ast.Assign, ast.AnnAssign)) and getattr(st, "value", None) is not None and isinstance(st.value, ast.Call)
+                    and isinstance(st.value.func, ast.Name) and st.value.func.id in recs):
+                continue
+            tgt = st.targets[0] if isinstance(st, ast.Assign) else st.target
+            if not isinstance(tgt, ast.Name):
+                continue
+            var, fields, call = tgt.id, recs[st.value.func.id], st.value
+            if any(isinstance(a, ast.Starred) for a in call.args) or any(k.arg is None for k in call.keywords):
+                continue
+            vals: Dict[str, ast.AST] = {f: a for f, a in zip(fields, call.args)}
+            vals.update({k.arg: k.value for k in call.keywords})
+            if set(vals) != set(fields) or not all(isinstance(v, (ast.Name, ast.Constant)) for v in vals.values()):
+                continue
+            stores = [x for x in ast.walk(fdef) if isinstance(x, ast.Name) and x.id == var and isinstance(x.ctx, (ast.Store, ast.Del))]
+            loads = [x for x in ast.walk(fdef) if isinstance(x, ast.Name) and x.id == var and isinstance(x.ctx, ast.Load)]
+            attr_reads = [x for x in ast.walk(fdef) if isinstance(x, ast.Attribute) and isinstance(x.value, ast.Name) and x.value.id == var
+                          and isinstance(x.ctx, ast.Load) and x.attr in vals]
+            if len(stores) != 1 or len(loads) != len(attr_reads) or not loads:
+                continue
+            # the names the record was built from keep their value afterwards (they are the inlined helper's locals)
+            arg_names = {v.id for v in vals.values() if isinstance(v, ast.Name)}
+            idx = block.index(st)
+            later_stores = [x for b in block[idx + 1:] for x in ast.walk(b) if isinstance(x, ast.Name) and x.id in arg_names and isinstance(x.ctx, (ast.Store, ast.Del))]
+            if later_stores or block is not fdef.body and False:
+                continue
+
+            class R(ast.NodeTransformer):
+                def visit_Attribute(self, node: ast.Attribute):
+                    self.generic_visit(node)
+                    if isinstance(node.value, ast.Name) and node.value.id == var and isinstance(node.ctx, ast.Load) and node.attr in vals:
+                        return ast.copy_location(copy.deepcopy(vals[node.attr]), node)
+                    return node
+            for b in block[idx + 1:]:
+                R().visit(b)
+            if any(isinstance(x, ast.Name) and x.id == var and isinstance(x.ctx, ast.Load) for x in ast.walk(fdef)):
+                continue        # some read sits outside this block: leave the record in place (reads already replaced are equivalent)
+            block.remove(st)
+            done += 1
     return done
 
 
